@@ -96,8 +96,9 @@ theorem lbp_binop (op : BinOp) (hne : op ≠ .shr) (sp : Bool) (X : List Tok) (h
   cases op <;> first | exact absurd rfl hne | simp [exprLbp, hX, sym_or, sym_and, sym_eq, sym_ne, sym_lt, sym_le, sym_gt, sym_ge, sym_coalesce, sym_bitOr, sym_bitXor, sym_bitAnd, sym_shl, sym_shr, sym_add, sym_sub, sym_mul, sym_div, sym_mod, binOfSym_or, binOfSym_and, binOfSym_eq, binOfSym_ne, binOfSym_lt, binOfSym_le, binOfSym_gt, binOfSym_ge, binOfSym_coalesce, binOfSym_bitOr, binOfSym_bitXor, binOfSym_bitAnd, binOfSym_shl, binOfSym_shr, binOfSym_add, binOfSym_sub, binOfSym_mul, binOfSym_div, binOfSym_mod]
 
 theorem led_binop (pe : Nat → List Tok → Option (Expr × List Tok)) (pa : List Tok → Option (Bool × Ty × List Tok))
+    (pas : List Tok → Option (Expr × List Tok))
     (left : Expr) (op : BinOp) (hne : op ≠ .shr) (sp : Bool) (X : List Tok) (hX : adjGt X = none) :
-    ledBody pe pa left (⟨.sym, op.sym, sp⟩ :: X) = (pe op.rbp X).map (fun (e, r) => (.binary op left e, r)) := by
+    ledBody pe pa pas left (⟨.sym, op.sym, sp⟩ :: X) = (pe op.rbp X).map (fun (e, r) => (.binary op left e, r)) := by
   cases op <;> first | exact absurd rfl hne | simp [ledBody, hX, sym_or, sym_and, sym_eq, sym_ne, sym_lt, sym_le, sym_gt, sym_ge, sym_coalesce, sym_bitOr, sym_bitXor, sym_bitAnd, sym_shl, sym_shr, sym_add, sym_sub, sym_mul, sym_div, sym_mod, binOfSym_or, binOfSym_and, binOfSym_eq, binOfSym_ne, binOfSym_lt, binOfSym_le, binOfSym_gt, binOfSym_ge, binOfSym_coalesce, binOfSym_bitOr, binOfSym_bitXor, binOfSym_bitAnd, binOfSym_shl, binOfSym_shr, binOfSym_add, binOfSym_sub, binOfSym_mul, binOfSym_div, binOfSym_mod]
 
 theorem lbp_shr (sp : Bool) (X : List Tok) :
@@ -105,8 +106,9 @@ theorem lbp_shr (sp : Bool) (X : List Tok) :
   simp [exprLbp, adjGt]
 
 theorem led_shr (pe : Nat → List Tok → Option (Expr × List Tok)) (pa : List Tok → Option (Bool × Ty × List Tok))
+    (pas : List Tok → Option (Expr × List Tok))
     (left : Expr) (sp : Bool) (X : List Tok) :
-    ledBody pe pa left (⟨.sym, ">", sp⟩ :: ⟨.sym, ">", false⟩ :: X) =
+    ledBody pe pa pas left (⟨.sym, ">", sp⟩ :: ⟨.sym, ">", false⟩ :: X) =
       (pe BinOp.shr.rbp X).map (fun (e, r) => (.binary .shr left e, r)) := by
   simp [ledBody, adjGt]
 
@@ -167,6 +169,10 @@ theorem print_index (e i : Expr) :
     printExpr (.index e i) = doc (pP e.prec precAccess) e ++ sym "[" :: printExpr i ++ [sym "]"] := by
   rw [printExpr, parenthesized_eq]
 
+theorem print_invoke (f args : Expr) :
+    printExpr (.invoke f args) = doc (pP f.prec precAccess) f ++ sym "(" :: printArgs args ++ [sym ")"] := by
+  rw [printExpr, parenthesized_eq]
+
 /-! ## the side conditions of the induction -/
 
 theorem prec_binary (op : BinOp) (l r : Expr) : (Expr.binary op l r).prec = op.prec := rfl
@@ -177,6 +183,7 @@ theorem prec_cast (op : CastOp) (e : Expr) (res : Bool) (t : Ty) : (Expr.cast op
 theorem prec_cond (c t e : Expr) : (Expr.cond c t e).prec = 1 := precTernary_eq
 theorem prec_member (o : Bool) (e : Expr) (n : String) : (Expr.member o e n).prec = 16 := precAccess_eq
 theorem prec_index (e i : Expr) : (Expr.index e i).prec = 16 := precAccess_eq
+theorem prec_invoke (f a : Expr) : (Expr.invoke f a).prec = 16 := precAccess_eq
 
 /-- the smallest left binding power of an operator on the unparenthesised left spine (1000: none) -/
 def topLbp : Expr → Nat
@@ -186,6 +193,7 @@ def topLbp : Expr → Nat
   | .force e => if pP e.prec precUnaryPostfix then bpUnaryPostfix else min bpUnaryPostfix (topLbp e)
   | .member _ e _ => if pM e then bpAccess else min bpAccess (topLbp e)
   | .index e _ => if pP e.prec precAccess then bpAccess else min bpAccess (topLbp e)
+  | .invoke e _ => if pP e.prec precAccess then bpAccess else min bpAccess (topLbp e)
   | _ => 1000
 
 /-- the power at which the last operand of the printed form is parsed (1000: the form is closed) -/
@@ -282,6 +290,14 @@ theorem topLbp_ge (e : Expr) : min (lvl e.prec) 160 ≤ topLbp e := by
       have : 15 ≤ e.prec := by
         simp [pP, precUnaryPostfix_eq, precAccess_eq] at hp; omega
       simp only [lvl] at ih; omega
+  | invoke e i ih _ =>
+    simp only [topLbp, prec_invoke, precAccess_eq, bpAccess_eq, lvl]
+    by_cases hp : pP e.prec 16 = true
+    · rw [if_pos hp]; omega
+    · rw [if_neg hp]
+      have : 15 ≤ e.prec := by
+        simp [pP, precUnaryPostfix_eq, precAccess_eq] at hp; omega
+      simp only [lvl] at ih; omega
   | _ => simp [topLbp]; omega
 
 /-! ## white space flags and first tokens -/
@@ -361,6 +377,11 @@ theorem printExpr_head (e : Expr) : ∃ h tl, printExpr e = h :: tl ∧ isSym ")
   | index e i ih _ =>
     obtain ⟨h, tl, he, hh⟩ := hdoc (pP e.prec precAccess) e ih
     exact ⟨h, _, by rw [print_index, he]; rfl, hh⟩
+  | invoke e a ih _ =>
+    obtain ⟨h, tl, he, hh⟩ := hdoc (pP e.prec precAccess) e ih
+    exact ⟨h, _, by rw [print_invoke, he]; rfl, hh⟩
+  | argsNil => exact ⟨_, _, rfl, by decide⟩
+  | argsCons l a r _ _ => exact ⟨_, _, rfl, by decide⟩
 
 theorem printExpr_ne_nil (e : Expr) : printExpr e ≠ [] := by
   obtain ⟨h, tl, he, _⟩ := printExpr_head e
@@ -734,7 +755,7 @@ theorem P_binary (op : BinOp) (l r : Expr) (hPl : P l) (hPr : P r) : P (.binary 
       rw [led_shr, parseExpr_spaced, operand_right .shr r hPr rest h2 h3 f hf]; rfl
     · next hs =>
       simp only [symSp, List.cons_append, List.nil_append]
-      rw [led_binop _ _ _ op hs _ _ (adjGt_spaced _), parseExpr_spaced, operand_right op r hPr rest h2 h3 f hf]; rfl
+      rw [led_binop _ _ _ _ op hs _ _ (adjGt_spaced _), parseExpr_spaced, operand_right op r hPr rest h2 h3 f hf]; rfl
   refine child l hPl (pL op l) rbp _ (4 * (doc (pR op r) r).length + 3 + b) res F ?_ ?_ (by omega)
   · intro hp
     refine ⟨hr.2 hp, ?_, ?_⟩
@@ -876,39 +897,205 @@ theorem P_cond (c t e : Expr) (hc : P c) (ht : P t) (he : P e) : P (.cond c t e)
     simp only [Option.bind_some]
     exact loop_mono (by omega) hl
 
+/-! ### invocation -/
+
+theorem parseArgs_spaced (f : Nat) (Y : List Tok) : parseArgs f (spaced Y) = parseArgs f Y := by
+  cases f with
+  | zero => simp [parseArgs]
+  | succ f => rw [parseArgs, parseArgs]; unfold argsBody; rw [expect_spaced, parseExpr_spaced]
+
+/-- the statement for argument lists: parsing the printed arguments up to the closing parenthesis -/
+def PArgs (args : Expr) : Prop :=
+  ∀ (rest : List Tok) (F : Nat), 4 * (printArgs args).length + 2 ≤ F →
+    parseArgs F (printArgs args ++ sym ")" :: rest) = some (args, rest)
+
+theorem PArgs_nil : PArgs .argsNil := by
+  intro rest F hF
+  obtain ⟨F1, rfl⟩ : ∃ F1, F = F1 + 1 := ⟨F - 1, by omega⟩
+  rw [parseArgs]
+  simp [argsBody, printArgs, expect, sym]
+
+theorem qFree_closer (s : String) (rest : List Tok) (h : s = "," ∨ s = ")") : qFree (sym s :: rest) = true := by
+  rcases h with rfl | rfl <;> rfl
+
+theorem exprLbp_comma (sp : Bool) (rest : List Tok) : exprLbp (⟨.sym, ",", sp⟩ :: rest) = 0 := by
+  simp [exprLbp]; decide
+
+theorem printArgs_cons (label : String) (a rest : Expr) :
+    printArgs (.argsCons label a rest) =
+      (if label == "" then printExpr a else ⟨.ident, label, false⟩ :: sym ":" :: spaced (printExpr a)) ++
+      (if rest.isArgsCons then sym "," :: spaced (printArgs rest) else []) := by
+  rw [printArgs]
+
+theorem wfArgs_shape (rest : Expr) (h : rest.wfArgs = true) : rest.isArgsCons = true ∨ rest = .argsNil := by
+  cases rest <;> simp [Expr.wfArgs, Expr.isArgsCons] at h ⊢
+
+theorem printArgs_ne_nil (l : String) (a r : Expr) : printArgs (.argsCons l a r) ≠ [] := by
+  rw [printArgs_cons]
+  have := printExpr_ne_nil a
+  split <;> simp [this]
+
+theorem PArgs_cons (label : String) (a rest : Expr) (ha : P a) (hr : PArgs rest) (hrw : rest.wfArgs = true)
+    (hl : (label == "" || plainIdent label) = true) : PArgs (.argsCons label a rest) := by
+  intro R F hF
+  rw [printArgs_cons] at hF ⊢
+  -- what follows the argument
+  have htail : ∃ X : List Tok, (if rest.isArgsCons then sym "," :: spaced (printArgs rest) else []) ++ sym ")" :: R = X ∧
+      exprLbp X = 0 ∧ qFree X = true ∧ expect ":" X = none ∧
+      ∀ f, 4 * (if rest.isArgsCons then sym "," :: spaced (printArgs rest) else ([] : List Tok)).length + 2 ≤ f + 1 →
+        argTail (parseArgs f) label a X = some (.argsCons label a rest, R) := by
+    rcases wfArgs_shape rest hrw with hc | hn
+    · refine ⟨_, rfl, ?_, ?_, ?_, ?_⟩
+      · simp only [hc, if_true, List.cons_append, sym]; exact exprLbp_comma _ _
+      · simp only [hc, if_true, List.cons_append]; rfl
+      · simp [hc, sym, expect]
+      · intro f hf
+        simp only [hc, if_true, List.cons_append, List.length_cons] at hf ⊢
+        have hne : printArgs rest ≠ [] := by
+          cases rest <;> simp [Expr.isArgsCons] at hc
+          exact printArgs_ne_nil _ _ _
+        have hsl : (spaced (printArgs rest)).length = (printArgs rest).length := by
+          cases hd : printArgs rest <;> rfl
+        rw [hsl] at hf
+        unfold argTail
+        simp only [sym, expect, beq_self_eq_true, if_true]
+        have hrr := hr R f (by omega)
+        simp only [sym] at hrr
+        rw [spaced_append _ _ hne, parseArgs_spaced, hrr]
+        rfl
+    · subst hn
+      refine ⟨_, rfl, ?_, ?_, ?_, ?_⟩
+      · simp only [Expr.isArgsCons, Bool.false_eq_true, if_false, List.nil_append, sym]; exact exprLbp_rparen _ _
+      · rfl
+      · simp [Expr.isArgsCons, sym, expect]
+      · intro f _
+        unfold argTail
+        simp [Expr.isArgsCons, sym, expect]
+  obtain ⟨X, hX, hlbp, hq, hcolon, htl⟩ := htail
+  have hapos : 0 < topLbp a := by have := topLbp_ge a; simp only [lvl] at this; omega
+  obtain ⟨F1, rfl⟩ : ∃ F1, F = F1 + 1 := ⟨F - 1, by omega⟩
+  obtain ⟨h0, tl0, he0, hh0⟩ := printExpr_head a
+  have hlen1 : 1 ≤ (printExpr a).length := by rw [he0]; simp
+  rw [parseArgs]
+  unfold argsBody
+  by_cases hlab : (label == "") = true
+  · simp only [hlab, if_true, List.append_assoc] at hF ⊢
+    rw [hX]
+    have hx : expect ")" (printExpr a ++ X) = none := by rw [he0]; exact expect_notSym _ _ _ hh0
+    rw [hx]
+    simp only [List.length_append] at hF
+    rw [ha 0 X 1 (a, X) F1 hapos (by omega) hq (loop_stop 0 0 _ _ (by omega)) (by omega)]
+    simp only [Option.bind_some, hcolon]
+    have hl' : label = "" := by simpa using hlab
+    subst hl'
+    exact htl F1 (by omega)
+  · have hlab' : (label == "") = false := by simpa using hlab
+    have hpl : plainIdent label = true := by simpa [hlab'] using hl
+    simp only [hlab', Bool.false_eq_true, if_false, List.cons_append, List.append_assoc] at hF ⊢
+    rw [hX]
+    have hsl : (spaced (printExpr a)).length = (printExpr a).length := by
+      rw [he0]; rfl
+    simp only [List.length_cons, List.length_append, hsl] at hF
+    simp only [expect]
+    -- the label is parsed as an identifier expression
+    obtain ⟨F2, rfl⟩ : ∃ F2, F1 = F2 + 2 := ⟨F1 - 2, by omega⟩
+    have hid : parseExpr (F2 + 2) 0 (⟨.ident, label, false⟩ :: sym ":" :: (spaced (printExpr a) ++ X)) =
+        some (.ident label, sym ":" :: (spaced (printExpr a) ++ X)) := by
+      have := P_ident label hpl 0 (sym ":" :: (spaced (printExpr a) ++ X)) 1 (.ident label, _) (F2 + 2)
+        (by simp [topLbp]) (by rw [show sym ":" = ⟨.sym, ":", false⟩ from rfl, exprLbp_closer _ _ _ (Or.inr (Or.inl rfl))]; omega)
+        rfl (loop_stop 0 0 _ _ (by rw [show sym ":" = ⟨.sym, ":", false⟩ from rfl, exprLbp_closer _ _ _ (Or.inr (Or.inl rfl))]; omega))
+        (by simp only [printExpr, List.length_cons, List.length_nil]; omega)
+      simpa [printExpr] using this
+    rw [hid]
+    simp only [Option.bind_some, sym, expect, beq_self_eq_true, if_true]
+    rw [spaced_append _ _ (printExpr_ne_nil a), parseExpr_spaced,
+      ha 0 X 1 (a, X) (F2 + 2) hapos (by omega) hq (loop_stop 0 0 _ _ (by omega)) (by omega)]
+    simp only [Option.bind_some]
+    exact htl (F2 + 2) (by omega)
+
+theorem P_invoke (c args : Expr) (hc : P c) (ha : PArgs args) : P (.invoke c args) := by
+  intro rbp rest b r F h1 _ _ hl hF
+  rw [print_invoke] at hF ⊢
+  simp only [List.length_append, List.length_cons, List.length_nil] at hF
+  simp only [List.append_assoc, List.cons_append, List.nil_append]
+  have hlbp : exprLbp (sym "(" :: (printArgs args ++ sym ")" :: rest)) = 170 := by simp [exprLbp, sym, bpAccess_eq]
+  have hr : rbp < 170 ∧ (pP c.prec precAccess = false → rbp < topLbp c) := by
+    simp only [topLbp, bpAccess_eq] at h1
+    by_cases hp : pP c.prec precAccess = true
+    · rw [if_pos hp] at h1; exact ⟨h1, fun h => by simp [hp] at h⟩
+    · rw [if_neg hp] at h1; exact ⟨by omega, fun _ => by omega⟩
+  refine child c hc (pP c.prec precAccess) rbp (sym "(" :: (printArgs args ++ sym ")" :: rest))
+    (4 * (printArgs args).length + 4 + b) r F ?_ ?_ (by omega)
+  · intro hp
+    refine ⟨hr.2 hp, ?_, rfl⟩
+    have : 15 ≤ c.prec := by simp [pP, precUnaryPostfix_eq, precAccess_eq] at hp; omega
+    rw [hlbp, rlvl_postfix c this]; omega
+  · rw [show 4 * (printArgs args).length + 4 + b = (4 * (printArgs args).length + 2 + b + 1) + 1 by omega,
+      loop_step _ _ _ _ (by rw [hlbp]; exact hr.1), led]
+    simp only [ledBody, sym]
+    simp only [show ("(" == "as?") = false by decide, show ("(" == "as!") = false by decide,
+      show ("(" == "?") = false by decide, show ("(" == "!") = false by decide, show ("(" == ".") = false by decide,
+      show ("(" == "?.") = false by decide, show ("(" == "[") = false by decide, show ("(" == "(") = true by decide,
+      Bool.or_false, if_true, Bool.false_eq_true, if_false]
+    have har := ha rest _ (Nat.le_add_right (4 * (printArgs args).length + 2) b)
+    simp only [sym] at har
+    rw [har]
+    simp only [Option.map_some, Option.bind_some]
+    exact loop_mono (by omega) hl
+
 /-! ### the induction -/
 
-/-- parsing the printed form of a well-formed expression continues with the loop on the expression -/
-theorem parse_print (e : Expr) (hwf : e.wf = true) : P e := by
+/-- parsing the printed form of a well-formed expression continues with the loop on the expression; the
+    printed form of a well-formed argument list parses as that list -/
+theorem parse_print_both (e : Expr) : (e.wf = true → P e) ∧ (e.wfArgs = true → PArgs e) := by
   induction e with
-  | ident n => exact P_ident n (by simpa [Expr.wf] using hwf)
+  | ident n => exact ⟨fun hwf => P_ident n (by simpa [Expr.wf] using hwf), fun h => by simp [Expr.wfArgs] at h⟩
   | int neg l =>
+    refine ⟨fun hwf => ?_, fun h => by simp [Expr.wfArgs] at h⟩
     cases neg
     · exact P_int l
     · exact P_negint l (by simpa [Expr.wf] using hwf)
-  | fix neg l => cases neg; exact P_fix l; exact P_negfix l
-  | bool v => exact P_bool v
-  | nil => exact P_nil
-  | void => exact P_void
+  | fix neg l => exact ⟨fun _ => by cases neg; exact P_fix l; exact P_negfix l, fun h => by simp [Expr.wfArgs] at h⟩
+  | bool v => exact ⟨fun _ => P_bool v, fun h => by simp [Expr.wfArgs] at h⟩
+  | nil => exact ⟨fun _ => P_nil, fun h => by simp [Expr.wfArgs] at h⟩
+  | void => exact ⟨fun _ => P_void, fun h => by simp [Expr.wfArgs] at h⟩
   | unary op c ih =>
+    refine ⟨fun hwf => ?_, fun h => by simp [Expr.wfArgs] at h⟩
     simp only [Expr.wf, Bool.and_eq_true, Bool.not_eq_true'] at hwf
-    exact P_unary op c (ih hwf.1) hwf.2
+    exact P_unary op c (ih.1 hwf.1) hwf.2
   | ref c ih =>
+    refine ⟨fun hwf => ?_, fun h => by simp [Expr.wfArgs] at h⟩
     simp only [Expr.wf, Bool.and_eq_true] at hwf
-    exact P_ref c (ih hwf.1)
-  | force c ih => exact P_force c (ih (by simpa [Expr.wf] using hwf))
+    exact P_ref c (ih.1 hwf.1)
+  | force c ih => exact ⟨fun hwf => P_force c (ih.1 (by simpa [Expr.wf] using hwf)), fun h => by simp [Expr.wfArgs] at h⟩
   | binary op l r ihl ihr =>
+    refine ⟨fun hwf => ?_, fun h => by simp [Expr.wfArgs] at h⟩
     simp only [Expr.wf, Bool.and_eq_true] at hwf
-    exact P_binary op l r (ihl hwf.1.1) (ihr hwf.1.2)
+    exact P_binary op l r (ihl.1 hwf.1.1) (ihr.1 hwf.1.2)
   | cast op c res t ih =>
+    refine ⟨fun hwf => ?_, fun h => by simp [Expr.wfArgs] at h⟩
     simp only [Expr.wf, Bool.and_eq_true] at hwf
-    exact P_cast op c res t (ih hwf.1) hwf.2
+    exact P_cast op c res t (ih.1 hwf.1) hwf.2
   | cond c t e ihc iht ihe =>
+    refine ⟨fun hwf => ?_, fun h => by simp [Expr.wfArgs] at h⟩
     simp only [Expr.wf, Bool.and_eq_true] at hwf
-    exact P_cond c t e (ihc hwf.1.1) (iht hwf.1.2) (ihe hwf.2)
-  | member o c n ih => exact P_member o c n (ih (by simpa [Expr.wf] using hwf))
+    exact P_cond c t e (ihc.1 hwf.1.1) (iht.1 hwf.1.2) (ihe.1 hwf.2)
+  | member o c n ih =>
+    exact ⟨fun hwf => P_member o c n (ih.1 (by simpa [Expr.wf] using hwf)), fun h => by simp [Expr.wfArgs] at h⟩
   | index c i ihc ihi =>
+    refine ⟨fun hwf => ?_, fun h => by simp [Expr.wfArgs] at h⟩
     simp only [Expr.wf, Bool.and_eq_true] at hwf
-    exact P_index c i (ihc hwf.1) (ihi hwf.2)
+    exact P_index c i (ihc.1 hwf.1) (ihi.1 hwf.2)
+  | invoke c args ihc iha =>
+    refine ⟨fun hwf => ?_, fun h => by simp [Expr.wfArgs] at h⟩
+    simp only [Expr.wf, Bool.and_eq_true] at hwf
+    exact P_invoke c args (ihc.1 hwf.1) (iha.2 hwf.2)
+  | argsNil => exact ⟨fun hwf => by simp [Expr.wf] at hwf, fun _ => PArgs_nil⟩
+  | argsCons label a rest iha ihr =>
+    refine ⟨fun hwf => by simp [Expr.wf] at hwf, fun h => ?_⟩
+    simp only [Expr.wfArgs, Bool.and_eq_true] at h
+    exact PArgs_cons label a rest (iha.1 h.1.2) (ihr.2 h.2) h.2 h.1.1
+
+theorem parse_print (e : Expr) (hwf : e.wf = true) : P e := (parse_print_both e).1 hwf
 
 end Verif.Proofs.PrattRT
